@@ -353,12 +353,25 @@ class World:
         return callable(md.options.get("highlight"))
 
 
+INJECT_BEFORE = {"enable", "disable", "chain_toggle", "configure", "exit_reset", "setopt"}
+
+
 def execute(hist_idx):
     """(history, index) -> trace; the index only varies equivalent spellings of a call."""
     hist, idx = hist_idx
     w = World()
     out = []
     for n, e in enumerate(hist):
+        # every third history: a fault in the inline plugin rule is injected BEFORE each rule-management call of an
+        # instance on which that rule is installed and active (a fault is a no-op of the model, so the shortest
+        # history to a state never has one in the middle; what it leaves behind only shows after a later change)
+        if idx % 3 == 2 and e["op"] in INJECT_BEFORE and w.inst.get(e.get("i")) is not None:
+            md = w.inst[e["i"]]
+            if "verif_inline" in md.get_active_rules()["inline"] and "paragraph" in md.get_active_rules()["block"]:
+                f = {"op": "fault", "i": e["i"], "doc": "D2", "site": "inline", "exc": ("ValueError", "KeyError")[n % 2]}
+                out.append(w.step(f, idx + n))
+                for d in ("D1", "D2"):
+                    out.append(w.step({"op": "parse", "i": e["i"], "api": "render", "doc": d, "env": "omitted"}, idx))
         out.append(w.step(e, idx + n))
         if e["op"] == "fault":
             # the statement: identical results for subsequent parses
